@@ -207,7 +207,103 @@ func HarnessC14Ticker() {
 	verifrt.Cover("end", true)
 }
 
+// ---- histories of probe replies ----
+
+type verifTopo struct {
+	text    string
+	masters map[string][2]int // master addr -> one slot range it serves (probe points)
+	slaves  map[string]string // replica addr -> its master's addr
+}
+
+var verifTopos = []verifTopo{
+	{ // T0: three masters, one replica each
+		text: "m1 10.0.0.1:7001@17001 master - 0 0 1 connected 0-5460\n" +
+			"m2 10.0.0.2:7002@17002 master - 0 0 2 connected 5461-10922\n" +
+			"m3 10.0.0.3:7003@17003 master - 0 0 3 connected 10923-16383\n" +
+			"r1 10.0.0.4:7004@17004 slave m1 0 0 1 connected\n" +
+			"r2 10.0.0.5:7005@17005 slave m2 0 0 2 connected\n" +
+			"r3 10.0.0.6:7006@17006 slave m3 0 0 3 connected\n",
+		masters: map[string][2]int{"10.0.0.1:7001": {0, 5460}, "10.0.0.2:7002": {5461, 10922}, "10.0.0.3:7003": {10923, 16383}},
+		slaves:  map[string]string{"10.0.0.4:7004": "10.0.0.1:7001", "10.0.0.5:7005": "10.0.0.2:7002", "10.0.0.6:7006": "10.0.0.3:7003"},
+	},
+	{ // T1: m1 failed, its replica r1 promoted
+		text: "m1 10.0.0.1:7001@17001 master,fail - 0 0 1 disconnected\n" +
+			"m2 10.0.0.2:7002@17002 master - 0 0 2 connected 5461-10922\n" +
+			"m3 10.0.0.3:7003@17003 master - 0 0 3 connected 10923-16383\n" +
+			"r1 10.0.0.4:7004@17004 master - 0 0 4 connected 0-5460\n" +
+			"r2 10.0.0.5:7005@17005 slave m2 0 0 2 connected\n" +
+			"r3 10.0.0.6:7006@17006 slave m3 0 0 3 connected\n",
+		masters: map[string][2]int{"10.0.0.4:7004": {0, 5460}, "10.0.0.2:7002": {5461, 10922}, "10.0.0.3:7003": {10923, 16383}},
+		slaves:  map[string]string{"10.0.0.5:7005": "10.0.0.2:7002", "10.0.0.6:7006": "10.0.0.3:7003"},
+	},
+	{ // T2: m1 is back, as a replica of r1
+		text: "m1 10.0.0.1:7001@17001 slave r1 0 0 4 connected\n" +
+			"m2 10.0.0.2:7002@17002 master - 0 0 2 connected 5461-10922\n" +
+			"m3 10.0.0.3:7003@17003 master - 0 0 3 connected 10923-16383\n" +
+			"r1 10.0.0.4:7004@17004 master - 0 0 4 connected 0-5460\n" +
+			"r2 10.0.0.5:7005@17005 slave m2 0 0 2 connected\n" +
+			"r3 10.0.0.6:7006@17006 slave m3 0 0 3 connected\n",
+		masters: map[string][2]int{"10.0.0.4:7004": {0, 5460}, "10.0.0.2:7002": {5461, 10922}, "10.0.0.3:7003": {10923, 16383}},
+		slaves:  map[string]string{"10.0.0.1:7001": "10.0.0.4:7004", "10.0.0.5:7005": "10.0.0.2:7002", "10.0.0.6:7006": "10.0.0.3:7003"},
+	},
+	{ // T3: T0 after moving slots 5000-5460 from m1 to m2
+		text: "m1 10.0.0.1:7001@17001 master - 0 0 1 connected 0-4999\n" +
+			"m2 10.0.0.2:7002@17002 master - 0 0 5 connected 5000-10922\n" +
+			"m3 10.0.0.3:7003@17003 master - 0 0 3 connected 10923-16383\n" +
+			"r1 10.0.0.4:7004@17004 slave m1 0 0 1 connected\n" +
+			"r2 10.0.0.5:7005@17005 slave m2 0 0 5 connected\n" +
+			"r3 10.0.0.6:7006@17006 slave m3 0 0 3 connected\n",
+		masters: map[string][2]int{"10.0.0.1:7001": {0, 4999}, "10.0.0.2:7002": {5000, 10922}, "10.0.0.3:7003": {10923, 16383}},
+		slaves:  map[string]string{"10.0.0.4:7004": "10.0.0.1:7001", "10.0.0.5:7005": "10.0.0.2:7002", "10.0.0.6:7006": "10.0.0.3:7003"},
+	},
+}
+
+// HarnessC14History: a history of h successive valid probe replies, each chosen by the solver among
+// four topologies (steady state, fail-over, fail-back as replica, resharding), interleaved with
+// ticker runs. After every step the routing table, the replica sets and the pools describe the
+// LATEST reply - whatever came before.
+func HarnessC14History(h, ntopo int) {
+	w, _ := verifClusterWorld()
+	cn := &EngineGlobal.ClusterNodes
+	for step := 0; step < h; step++ {
+		t := verifTopos[verifrt.Choice("topology", ntopo)]
+		if err := cn.updateClusterNodes(t.text); err != nil {
+			verifrt.Assert(false, "valid_text_accepted")
+		}
+		verifrt.Sleep(1100) // the ticker runs at most once a second
+		w.Tick()
+		verifrt.Assert(!cn.serverChanged, "change_consumed_by_ticker")
+		for m, rng := range t.masters {
+			for _, slot := range []int{rng[0], rng[1]} {
+				rs := EngineGlobal.Slots2Node.Get(int32(slot))
+				verifrt.Assert(rs != nil && rs.Master.Addr == m, "slot_served_by_the_master_of_the_latest_reply")
+				for _, sl := range rs.Slaves {
+					verifrt.Assert(t.slaves[sl.Addr] == m, "replica_attached_to_its_master_of_the_latest_reply")
+				}
+				n := 0
+				for _, mm := range t.slaves {
+					if mm == m {
+						n++
+					}
+				}
+				verifrt.Assert(len(rs.Slaves) == n, "all_usable_replicas_attached")
+			}
+		}
+		verifrt.Assert(len(EngineGlobal.ProxyPool) == len(t.masters)+len(t.slaves), "pools_follow_latest_node_set")
+		for a := range t.masters {
+			p, ok := EngineGlobal.ProxyPool[a]
+			verifrt.Assert(ok && !p.isSlave, "master_pool_present_and_master")
+		}
+		for a := range t.slaves {
+			p, ok := EngineGlobal.ProxyPool[a]
+			verifrt.Assert(ok && p.isSlave, "replica_pool_present_and_replica")
+		}
+	}
+	verifrt.Cover("end", true)
+}
+
 func init() {
+	verifrt.Register("HarnessC14History", func(p []int64) { HarnessC14History(int(p[0]), int(p[1])) })
 	verifrt.Register("HarnessC14Loop", func(p []int64) { HarnessC14Loop() })
 	verifrt.Register("HarnessC14Parse", func(p []int64) { HarnessC14Parse() })
 	verifrt.Register("HarnessC14Ticker", func(p []int64) { HarnessC14Ticker() })
